@@ -40,6 +40,9 @@ CHECKS = {
  "C16": ("fault_enumeration", "SIGKILL injection into writer child processes at PRNG-chosen points; fresh verifier process checks every acknowledged id",
          "Writer children stream unique (cycle,seq,version) VAAs of 100 B..256 KiB (with overwrites) into one badger directory through the real db.StoreSignedVAA and acknowledge each on a pipe; the parent SIGKILLs them after the k-th ACK + delay, right after a BEGIN, during open, or kills the verifier during its own reopen; after every kill a fresh process reopens the directory and looks up every id of all cycles: acknowledged => exact bytes of the acknowledged (or a later begun) version, unacknowledged => not-found or exact bytes, never anything else; reopen must succeed.",
          "Process kill only (page cache survives), as the property states; kill points are sampled, not enumerated at instruction granularity.", "3/C16"),
+ "C20": ("exploration", "trace monitor over fake gRPC streams with gated Send; fault injection (stall / disconnect) at generated points; blocked-Publish watchdog with structural witness; race detector",
+         "The real spyServer (hook) serves 1-8 fake subscriber streams with 0-3 filters; the sequence each reading subscriber received must equal the published VAAs matching its filters, in publish order. At a generated point one subscriber stalls in Send forever, disconnects cleanly, or disconnects with a backlog; afterwards every Publish must return, the other subscribers must receive everything, and subscriptions must still register and be removed. A blocked Publish is reported only with a structural witness (goroutine parked in chan send inside spy.go while the subscription mutex is unavailable at two instants). Known finding F14 (stalled / departed subscriber blocks Publish under the mutex) is matched by class and reported as KNOWN-FINDING.",
+         "Fake in-process streams, no TCP transport; -race.", "3/C20"),
  "C07": ("exploration", "differential runtime oracle, exhaustive n=0..255, contract formulas extracted from source at run time",
          "Exhaustive over the whole one-byte domain: the real CalculateQuorum is executed for every n in 0..255 and compared with floor(2n/3)+1 and with the quorum expressions read from Messages.sol and governance.ral in the working tree; BFT inequalities asserted per n.",
          "Contract expressions are evaluated by the harness' own integer evaluator (truncating division), not by an EVM/Alephium VM; an expression the extractor cannot parse makes the run inconclusive.", "3/C07"),
